@@ -352,7 +352,7 @@ inductive Line where
   | slashBad (k : Nat)   -- starts with '/', does not parse
   | noSlash (k : Nat)    -- does not start with '/' (comment, blank-prefixed, garbage)
   | empty
-  | long                 -- an (unparsable) line of 64 KiB or more
+  | long                 -- an unparsable line of 64 KiB or more (starts with '/')
   deriving DecidableEq, Repr
 
 /-- `SavePeerstore`: one line per address, peers in the given order -/
@@ -364,10 +364,11 @@ def Line.loads : Line → Bool
   | .bare _ => true
   | _ => false
 
-/-- `LoadPeerstore` (after fcf3a57): every line that parses, in file order — up to the first line
-    of 64 KiB or more: `bufio.Scanner` gives up there (ErrTooLong, logged) and the rest of the
-    file is not read. -/
-def load (file : List Line) : List Line := (file.takeWhile (fun l => l != .long)).filter Line.loads
+/-- `LoadPeerstore` (after fcf3a57 and 610b52a): every line that parses, in file order. Lines are
+    read with `bufio.Reader.ReadString` and may be of any length: a line of 64 KiB or more is
+    treated like any other line (until 610b52a a `bufio.Scanner` gave up at such a line and the
+    rest of the file was not read). -/
+def load (file : List Line) : List Line := file.filter Line.loads
 
 /-- `ImportPeers` walks the loaded addresses with their index `i` and sets priority `i` on the
     peer of every importable entry: what remains is the index of the peer's last entry -/
